@@ -4,4 +4,6 @@ go 1.23.4
 
 require github.com/joeycumines/go-bigbuff v0.0.0
 
+require golang.org/x/tools v0.29.0
+
 replace github.com/joeycumines/go-bigbuff => /repo
